@@ -2,7 +2,8 @@
    Statements only. *)
 From PV Require Import Base.Bytes Model.Tag Model.Types Model.TableTypes Model.Enc Spec.X690 Gen.Tables
      Proofs.SpecOctets Proofs.TagsetShape Proofs.RoundTrip1 Proofs.DerReference
-     Proofs.ReaderSound Proofs.ReaderModel Proofs.ReaderCer Proofs.ReaderBer Proofs.ReaderBerDeep.
+     Proofs.ReaderSound Proofs.ReaderModel Proofs.ReaderCer Proofs.ReaderBer Proofs.ReaderBerDeep
+     Proofs.DerReference2 Proofs.CerReferenceDeep.
 Local Open Scope N_scope.
 
 (* the reference's identifier octets (positional base-128 digits, X.690 8.1.2) are the octets the
@@ -116,3 +117,25 @@ Proof.
   exists (TExp (mkTag Ctx false 1) TInt), (VInt 5), [161; 3; 2; 1; 5; 0; 0], [161; 128; 2; 1; 5; 0; 0].
   vm_compute. repeat split; discriminate.
 Qed.
+
+(* THE WHOLE UNIVERSE, for every input: the DER encoder's output is byte-identical to the independent
+   reference for every type constructor - SET OF (sorted), SET (by tag), CHOICE, ANY, OPTIONAL/DEFAULT -
+   in both directions.  der_all: well-kinded values, no IMPLICIT tag directly on CHOICE/ANY, outside
+   finding F24, DEFAULTs of simple type, SET keys distinct, an ANY inside a SET OF is one complete TLV,
+   REAL not in decimal form *)
+Theorem C03_der_is_reference_all : forall T v b,
+  der_all T v = true -> encode DER true 0 T v = Ok b -> X690.der T v = Some b.
+Proof. exact der_is_reference_all. Qed.
+Print Assumptions C03_der_is_reference_all.
+
+Theorem C03_der_encoder_is_reference_all : forall T v b,
+  der_exact_all T v = true -> N.of_nat (length b) < DerReference.max_len ->
+  (encode DER true 0 T v = Ok b <-> X690.der T v = Some b).
+Proof. exact der_encoder_is_reference_all. Qed.
+Print Assumptions C03_der_encoder_is_reference_all.
+
+(* the CER encoder over containers, CHOICE and ANY included, whatever options the caller passes *)
+Theorem C03_cer_is_reference_all : forall T v d k b,
+  cer_all T v = true -> encode CER d k T v = Ok b -> X690.cer T v = Some b.
+Proof. exact cer_is_reference_all. Qed.
+Print Assumptions C03_cer_is_reference_all.
